@@ -30,6 +30,7 @@ def gen_case(rng, tier):
     prof["w_op"] = rng.choice([0, 0, 1])
     prof["views"] = rng.random() < 0.3  # dependencies through subviews of one allocation
     prof["nested_views"] = rng.random() < 0.5  # ... and through views of views
+    prof["reinterpret"] = rng.random() < 0.3  # ... taken with memref.reinterpret_cast instead of memref.subview
     prof["streams"] = rng.random() < 0.15  # streaming regions: XDMA extension kernels on the DM core, snax_alu on the compute core
     prof["stream_forms"] = rng.random() < 0.5  # ... unscheduled, scheduled or after layout resolution (dart.operation / schedule / access_pattern)
     prof["multiblock"] = rng.random() < 0.1  # several blocks (cf.cond_br): a barrier in one block does not cover the next
